@@ -396,6 +396,53 @@ def split_runs(events):
     return runs
 
 
+# binding self-test: for each trace specification an output event whose repetition every sound binding must reject (a frame written
+# twice, a record printed twice, a packet processed twice, a request generated twice ...). After a batch has been accepted, one accepted
+# run is corrupted in that way and validated alone: if TLC accepts it the trace specification does not constrain what it is there for.
+SELFTEST_DUP = {"PacketScanObsTrace": ("WriteBegin", "WriteEnd"), "AppScanObsTrace": ("Line",), "ReceiverTrace": ("Proc",), "LoggerTrace": ("Write",),
+                "LiveTrace": ("Emit",), "TargetsTrace": ("Item",), "RunnerTrace": ("Line",), "ArpCacheTrace": ("ArpFrame",)}
+
+
+def binding_selftest(ctx, module, runs, cfg=None, env=None, timeout=900):
+    names = SELFTEST_DUP.get(module)
+    if os.environ.get("VF_SELFTEST", "0") != "1":
+        return
+    if not names or getattr(ctx, "_selftested", None) is not None and module in ctx._selftested:
+        return
+    for r in runs:
+        if not (4 <= len(r) <= 4000):
+            continue
+        idx = [i for i, e in enumerate(r) if e.get("ev") == names[0] and (module != "TargetsTrace" or e.get("k") == "req")
+               and (module != "PacketScanObsTrace" or (i + 1 < len(r) and r[i + 1].get("ev") == names[-1] and r[i + 1].get("ok")))]
+        if not idx:
+            continue
+        i = idx[len(idx) // 2]
+        span = r[i:i + len(names)]
+        bad = r[:i + len(names)] + json.loads(json.dumps(span)) + r[i + len(names):]
+        p = os.path.join(ctx.scratch, "selftest-%s.ndjson" % module)
+        write_ndjson(p, bad)
+        ok, _ = ctx.tlc_trace(module, p, cfg=cfg, env=env, timeout=timeout)
+        if ok:
+            raise Inconclusive("binding self-test failed: %s accepted a recorded run in which the event %s was repeated" % (module, names[0]))
+        ctx.step("selftest-" + module, corrupted="event %s of an accepted run repeated" % names[0], rejected=True)
+        if getattr(ctx, "_selftested", None) is None:
+            ctx._selftested = set()
+        ctx._selftested.add(module)
+        return
+
+
+def selftest_event(ctx, module, event, what, cfg=None, env=None, timeout=600):
+    """binding self-test for specifications that judge one event at a time: a corrupted copy of an accepted event must be rejected"""
+    if os.environ.get("VF_SELFTEST", "0") != "1":
+        return
+    p = os.path.join(ctx.scratch, "selftest-%s.ndjson" % module)
+    write_ndjson(p, [event])
+    ok, _ = ctx.tlc_trace(module, p, cfg=cfg, env=env, timeout=timeout)
+    if ok:
+        raise Inconclusive("binding self-test failed: %s accepted an event corrupted by: %s" % (module, what))
+    ctx.step("selftest-" + module, corrupted=what, rejected=True)
+
+
 def validate_runs(ctx, module, trace_path, cfg=None, keyfn=None, max_reports=5, env=None, timeout=1800, label=None):
     """Validate a concatenation of runs (each starting with a Reset event) against a trace spec.
     On rejection the offending run is isolated, re-validated alone (so the verdict is about that run
@@ -414,6 +461,7 @@ def validate_runs(ctx, module, trace_path, cfg=None, keyfn=None, max_reports=5, 
         write_ndjson(p, flat)
         ok, info = ctx.tlc_trace(module, p, cfg=cfg, env=env, timeout=timeout)
         if ok:
+            binding_selftest(ctx, module, runs, cfg=cfg, env=env)
             break
         # locate the run containing the rejected event (1-based index into flat)
         idx = info["index"]
